@@ -151,7 +151,16 @@ class Kinds:
         if type_expr is None:
             return ["BaseException"]
         if isinstance(type_expr, ast.Tuple):
-            return [self.resolve_class_expr(x, fi) for x in type_expr.elts]
+            return [c for x in type_expr.elts for c in self.handler_classes(x, fi)]
+        if isinstance(type_expr, ast.Name) and type_expr.id not in self.prog.func_locals(fi):
+            # a module-level constant naming the class(es): `_STOP = (KeyboardInterrupt, SystemExit)`
+            k, p = self.prog.lookup_name(type_expr.id, fi, fi.module)
+            if k == "assign":
+                m, val = p
+                n_bind = sum(1 for n in ast.walk(m.tree) if (isinstance(n, ast.Name) and n.id == type_expr.id and isinstance(n.ctx, (ast.Store, ast.Del))) or (isinstance(n, ast.Global) and type_expr.id in n.names))
+                if n_bind == 1 and isinstance(val, (ast.Tuple, ast.Name, ast.Attribute)):
+                    stub = FuncInfo(f"{m.name}:<module>", m, ast.parse("def _m(): pass").body[0])
+                    return self.handler_classes(val, stub)
         return [self.resolve_class_expr(type_expr, fi)]
 
     def catches(self, classes: list[str], kind: str) -> bool:
